@@ -21,12 +21,20 @@ ASSUMPTIONS = c06.ASSUMPTIONS + ['one deliberate don\'t-care: an alternative pre
 SHRINK_FIELDS = ['intents']
 
 
+GDB_LANES = c06.GDB_LANES
+
+
 def generate(seed, tier, index):
+    if c06.in_gdb_world():
+        return c06.gen_gdb_session(seed, tier, CMD_WEIGHTS, ID, ncmd_range=(1, 8), initial_filter_p=0.3, closing=False)
     return c06.gen_session(seed, tier, CMD_WEIGHTS, ncmd_range=(1, 8), initial_filter_p=0.3, pid=ID)
 
 
 def execute(sc):
-    st, res, tr, V0 = c06.run_and_judge(sc, {'C12', 'C11'}, ID)
+    if sc['config'].get('world') == 'gdb':
+        st, res, tr, V0, sim = c06.run_and_judge_gdb(sc, {'C12', 'C11'}, ID)
+    else:
+        st, res, tr, V0 = c06.run_and_judge(sc, {'C12', 'C11'}, ID)
     V = common.Viol()
     V.counters = V0.counters
     for v in V0.list:
